@@ -275,7 +275,7 @@ def canon_value(R, v):
 
 
 # ----------------------------------------------------------------------------------------------
-def check(ctx):
+def _check_main(ctx):
     rng = ctx.rng
     R = ctx.real
     T = R.types
@@ -577,3 +577,11 @@ def check(ctx):
         if cl != cg:
             ctx.violation("integral-param", lazy_txt, "%s   (value of the eager text %s)" % (cg, eag_txt), cl,
                           how_py % ("from ka.interpret import execute; execute(%r); execute(%r)" % (lazy_txt, eag_txt)))
+
+
+
+def check(ctx):
+    _check_main(ctx)
+    # shared oracle: operators return new values, operands bound to variables are never updated in place
+    import alias_common
+    alias_common.run(ctx, prefix="alias")
